@@ -83,7 +83,10 @@ def _helper_of(repo, rel, cls, call):
                     return None
                 return st, not static
     if isinstance(f, ast.Name) and f.id.startswith("_"):
-        h = repo.func(rel, f.id, missing_ok=True)
+        try:
+            h = repo.func(rel, f.id, missing_ok=True)
+        except Exception:
+            h = None       # a private class, not a helper function
         if h is not None:
             return h, False
         imp = resolve_from_import(repo, rel, f.id)
